@@ -126,7 +126,9 @@ fn pad_user(n: usize, extra: usize) -> Prop {
 }
 
 fn pid_field(max: u32) -> Vec<Dev> {
-    [2u32, 255, 256, max].iter().map(|&v| dev!(format!("id={v}"), move |a: &mut AP| match a {
+    // (32-bit identifiers: also values whose low half / low bytes are zero - a 16-bit view of them is 0)
+    let vals: Vec<u32> = if max > 65535 { vec![2u32, 255, 256, 65535, 0x0001_0000, 0x0100_0000, 0xFFFF_0000, max] } else { vec![2u32, 255, 256, max] };
+    vals.iter().map(|&v| dev!(format!("id={v}"), move |a: &mut AP| match a {
         AP::Publish { pid, qos, .. } => {
             if *qos > 0 {
                 *pid = Some(v)
